@@ -255,7 +255,9 @@ pub fn run_pool(exe: &std::path::Path, args: &[String], n: u64, workers: usize, 
                     format!("exit:{}", status.code().unwrap_or(-1))
                 };
                 let tail = std::fs::read_to_string(&errpath).unwrap_or_default();
+                let refused = tail.lines().find(|l| l.starts_with("VCHECK-REFUSED")).unwrap_or("").to_string();
                 let tail: String = tail.chars().rev().take(600).collect::<String>().chars().rev().collect();
+                let tail = if refused.is_empty() { tail } else { format!("{}\n{}", refused, tail) };
                 let idx = last.unwrap_or(start);
                 g.1.push(Event {
                     index: idx,
